@@ -1898,6 +1898,7 @@ def make_run_usage(with_cc):
             # shutil.copy copies the permission bits
             fs[(dst, 'isfile')] = z3.BoolVal(True)
             fs[(dst, 'xbit')] = fact(src, 'xbit')
+            fs[(dst, 'runnable')] = fact(src, 'runnable')
             return dst
 
         shm = env.ModelNS()
@@ -1927,6 +1928,11 @@ def make_run_usage(with_cc):
             if not p.decide(z3.And(fact(c0, 'isfile'), fact(c0, 'xbit'))):
                 events.append(('run-of-a-non-executable', c0))
                 raise PyRaise(PermissionError(13, 'Permission denied', c0))
+            # the x bit does not make a file something the OS can start
+            # (script without #! line, foreign binary): only running it tells
+            if not p.decide(fact(c0, 'runnable')):
+                events.append(('run-of-an-unrunnable-file', c0))
+                raise PyRaise(OSError(8, 'Exec format error', c0))
 
         def golden(e):
             run_cmd(ns.cmd)
@@ -1953,8 +1959,10 @@ def make_run_usage(with_cc):
             lambda e, exprs: (events.append('reduce'), (exprs, 0))[1]
         # the facts the user controls, before the run touches anything
         infile_ok = fact('<infile>', 'isfile')
-        cmd_ok = z3.And(fact('/bin/cmd', 'isfile'), fact('/bin/cmd', 'xbit'))
-        cc_ok = z3.And(fact('/bin/cc', 'isfile'), fact('/bin/cc', 'xbit')) \
+        cmd_ok = z3.And(fact('/bin/cmd', 'isfile'), fact('/bin/cmd', 'xbit'),
+                        fact('/bin/cmd', 'runnable'))
+        cc_ok = z3.And(fact('/bin/cc', 'isfile'), fact('/bin/cc', 'xbit'),
+                       fact('/bin/cc', 'runnable')) \
             if with_cc else z3.BoolVal(True)
         usage_ok = z3.And(infile_ok, cmd_ok, cc_ok)
         out = outcome(eng, cli.g['ddsmt_main'], [])
@@ -1968,8 +1976,14 @@ def make_run_usage(with_cc):
         if diag:
             p.oblige(f'C04/{N}/diagnostic-only-for-a-usage-error',
                      z3.Not(usage_ok))
+            # (that a file cannot be started is only found by starting it:
+            # the attempt itself is the one event allowed before the
+            # diagnostic; no minimisation in any case)
             p.oblige(f'C04/{N}/nothing-run-after-a-usage-error',
-                     not events, info=repr(events))
+                     all(isinstance(ev, tuple) and
+                         ev[0] == 'run-of-an-unrunnable-file'
+                         for ev in events) and 'reduce' not in events,
+                     info=repr(events))
         if out.kind == 'return':
             p.oblige(f'C04/{N}/usage-error-is-reported', usage_ok)
             p.oblige(f'C04/{N}/minimisation-ran', 'reduce' in events and
@@ -1986,20 +2000,22 @@ def replay_usage(name, model, detail):
 
     lay = {}
     for path in ('<infile>', '/bin/cmd', '/bin/cc'):
-        lay[path] = [b(f'isfile[{path}]'), b(f'xbit[{path}]')]
+        lay[path] = [b(f'isfile[{path}]'), b(f'xbit[{path}]'),
+                     b(f'runnable[{path}]')]
     A = {'layout': lay, 'with_cc': '[cc]' in name}
     script = f'''
 import os, subprocess, sys, tempfile
 A = {A!r}
 d = tempfile.mkdtemp(prefix='c04usage-')
 names = {{'<infile>': 'in.smt2', '/bin/cmd': 'cmd.sh', '/bin/cc': 'cc.sh'}}
-for k, (isfile, xbit) in A['layout'].items():
+for k, (isfile, xbit, runnable) in A['layout'].items():
     f = os.path.join(d, names[k])
     if not isfile:
         continue
     with open(f, 'w') as h:
         h.write('(assert true)\\n' if k == '<infile>'
-                else '#!/bin/sh\\necho sat\\n')
+                else '#!/bin/sh\\necho sat\\n' if runnable
+                else 'echo sat (a script without the first line)\\n')
     os.chmod(f, 0o755 if xbit else 0o644)
 argv = [sys.executable, os.path.join(os.environ['PYTHONPATH'].split(os.pathsep)[0], 'bin/ddsmt'),
         '-j1', os.path.join(d, 'in.smt2'), os.path.join(d, 'out.smt2'),
@@ -2009,8 +2025,8 @@ if A['with_cc']:
 r = subprocess.run(argv, capture_output=True, text=True, timeout=300)
 import shutil; shutil.rmtree(d, ignore_errors=True)
 tb = 'Traceback (most recent call last)' in r.stderr + r.stdout
-usage_ok = all(i and (x or k == '<infile>')
-               for k, (i, x) in A['layout'].items()
+usage_ok = all(i and ((x and r) or k == '<infile>')
+               for k, (i, x, r) in A['layout'].items()
                if A['with_cc'] or k != '/bin/cc')
 print('layout', A, 'exit', r.returncode, 'traceback', tb)
 print(r.stderr[-800:])
